@@ -23,21 +23,23 @@ def dictionary(value, dictionary_class):
     return value
 
 
+# INDI number text: optional sign, then a plain decimal or a sexagesimal value
+# of two or three fields separated by ':', ';' or a blank (ASCII digits only).
+NUMBER_RE = re.compile(
+    r"^([-+]?)(?:"
+    r"(\d+(?:\.\d*)?|\.\d+)"
+    r"|(\d+)[:; ](\d+(?:\.\d*)?|\.\d+)"
+    r"|(\d+)[:; ](\d+)[:; ](\d+(?:\.\d*)?|\.\d+)"
+    r")$",
+    re.ASCII,
+)
+
+
 def number(value):
-    regexps = (
-        r"^\-?\d+$",  # int
-        r"^\-?\d+\.\d+$",
-        r"^\-?\d+\.$",
-        r"^\-?\.\d+$",  # float
-        r"^\-?\d+:\d{2}$",  # :mm
-        r"^\-?\d+:\d{2}\.\d+$",  # :mm.m
-        r"^\-?\d+:\d{2}:\d{2}$",  # :mm:ss
-        r"^\-?\d+:\d{2}:\d{2}\.\d+$",  # :mm:ss.s
-    )
     if value is None:
         return None
 
-    if not any([re.match(r, str(value)) for r in regexps]):
+    if not NUMBER_RE.match(str(value)):
         raise ValueError("Invalid value for number: %s", value)
 
     return value
